@@ -159,6 +159,8 @@ let kernel toks =
   | ["create_ymd"; tz; us] -> pr "k create_ymd %s\n" (hex_of_bytes (create_ymd (zi tz) (zi us)))
   | ["crc"; hex] -> pr "k crc %s\n" (z_to_string (crc_calc g_crc_table (bytes_of_hex hex) Z0 true))
   | ["crcok"; hex] -> pr "k crcok %d\n" (bi (crc_ok g_crc_table (bytes_of_hex hex)))
+  | ["direct"; _; _; hex] -> pr "k direct %d\n" (List.length (String.split_on_char ',' hex))
+  | ["direct"; _; _] -> pr "k direct 1\n"
   | ["overflow"; n] -> pr "k overflow %d\n" (bi (overflow_guard (zi n)))
   | _ -> pr "k ? %s\n" (String.concat " " toks)
 
